@@ -411,6 +411,83 @@ func c18ClientSide(r *fw.Run, srv *RawServer, c *c18UpCase, id string) {
 	r.Count("bytes_checked", int64(len(got)))
 }
 
+// c18Duplex: the peer echoes; the library side writes the stream in one goroutine and reads the echo in another.
+// What is read must be exactly what was written.
+func c18Duplex(r *fw.Run, transport string, S []byte, k int) {
+	cs := map[string]interface{}{"what": "duplex echo", "transport": transport, "len": len(S)}
+	e, err := newCtxEnd(r, transport)
+	if err != nil {
+		r.Inconclusive("transport %s: %v", transport, err)
+		return
+	}
+	defer e.Close()
+	go func() { // echo
+		buf := make([]byte, 1+(k*37)%5000)
+		for {
+			n, err := e.peer.Read(buf)
+			if n > 0 {
+				if _, werr := e.peer.Write(buf[:n]); werr != nil {
+					return
+				}
+			}
+			if err != nil {
+				return
+			}
+		}
+	}()
+	ctx, cancel := context.WithTimeout(context.Background(), 30*time.Second)
+	defer cancel()
+	var wg sync.WaitGroup
+	wg.Add(1)
+	var werr error
+	go func() {
+		defer wg.Done()
+		chunk := 1 + (k*53)%3000
+		for off := 0; off < len(S); off += chunk {
+			end := off + chunk
+			if end > len(S) {
+				end = len(S)
+			}
+			if _, err := e.rw.Write(ctx, S[off:end]); err != nil {
+				werr = err
+				return
+			}
+		}
+	}()
+	var got []byte
+	var rerr error
+	for i := 0; len(got) < len(S); i++ {
+		buf := make([]byte, []int{1, 7, 512, 4096, 65536}[(k+i)%5])
+		n, err := e.rw.Read(ctx, buf)
+		if n < 0 || n > len(buf) {
+			r.Violation("C18 read-count-out-of-range", fmt.Sprintf("duplex use on %s: Read into a %d-byte buffer reported %d bytes (while another goroutine was writing)", transport, len(buf), n), cs)
+			cancel()
+			wg.Wait()
+			return
+		}
+		got = append(got, buf[:n]...)
+		if !bytes.HasPrefix(S, got) {
+			at := len(got) - n
+			r.Violation("C18 stream-not-contiguous", fmt.Sprintf("duplex use on %s: Read returned %q at offset %d of the echo of what the other goroutine wrote (%q)", transport, clip(string(buf[:n]), 60), at, clip(string(S[min(at, len(S)):]), 60)), cs)
+			cancel()
+			wg.Wait()
+			return
+		}
+		if err != nil {
+			rerr = err
+			break
+		}
+	}
+	cancel()
+	wg.Wait()
+	if len(got) != len(S) {
+		r.Violation("C18 stream-truncated", fmt.Sprintf("duplex use on %s: %d of %d echoed bytes were read (read error %v, write error %v)", transport, len(got), len(S), rerr, werr), cs)
+	}
+	r.Count("duplex_streams", 1)
+	r.Count("bytes_checked", int64(len(got)))
+	r.Case(fw.Hash("duplex", transport, fmt.Sprint(k)), true)
+}
+
 func genStream(rng *rand.Rand, n int) []byte {
 	b := make([]byte, 0, n)
 	for len(b) < n {
@@ -458,6 +535,16 @@ func runC18(r *fw.Run) {
 		S := append(append([]byte{}, frame...), payload...)
 		cases = append(cases, &c18Case{Transport: []string{"pipe", "unix", "tcp"}[k%3], Stream: S, Seg: Seg{}, Reads: [][]int{{0, 16, 16, 16, 16, 16, 16, 16, 16, 16, 16, 16, 16, 16, 16, 16, 16, 16, 16, 16, 16}, {0, 4096, 4096, 4096}, {0, 1, 1, 1, 1, 1, 1, 1, 1, 1, 1, 1, 1, 1, 1, 1, 1, 1, 1, 1, 1, 1, 1, 1, 1, 1, 1, 1, 1, 1, 1}}[k%3], What: "frame+payload coalesced"})
 	}
+	// a frame longer than the internal buffer and the raw payload right behind it in one segment
+	for k := 0; k < r.Pick(60, 600); k++ {
+		flen := []int{4090, 4096, 4200, 5000, 8192, 20000, 70000}[k%7]
+		frame := append([]byte(`{"method":"x.y.Up","upgrade":true,"pad":"`), bytes.Repeat([]byte("p"), flen)...)
+		frame = append(frame, []byte(`"}`)...)
+		frame = append(frame, 0)
+		payload := genStream(rng, 1+rng.Intn(600))
+		S := append(append([]byte{}, frame...), payload...)
+		cases = append(cases, &c18Case{Transport: []string{"pipe", "unix", "tcp"}[k%3], Stream: S, Seg: Seg{}, Reads: [][]int{{0, 16, 16, 16, 16, 16, 16, 16, 16, 16, 16, 16, 16, 16, 16, 16, 16, 16, 16, 16, 16, 16, 16, 16, 16, 16, 16, 16, 16, 16, 16, 16, 16, 16, 16, 16, 16, 16, 16}, {0, 4096, 4096}, {0, 1, 1, 1, 1, 1, 1, 1, 1, 1, 1, 1, 1, 1, 1, 1, 1, 1, 1, 1, 1, 1, 1, 1, 1, 1, 1, 1, 1, 1, 1, 1, 1, 1, 1, 1, 1, 1, 1, 1, 1, 1, 1, 1, 1, 1, 1, 1, 1, 1, 1, 1, 1, 1, 1, 1, 1, 1, 1, 1, 1}}[k%3], What: "big frame+payload coalesced"})
+	}
 	fw.Parallel(8, len(cases), func(w, i int) {
 		c := cases[i]
 		if r.ViolationCount() > 12 {
@@ -476,6 +563,15 @@ func runC18(r *fw.Run) {
 			r.Sample(map[string]interface{}{"transport": c.Transport, "stream": clip(string(c.Stream), 200), "cuts": c.Seg.Cuts, "reads": c.Reads})
 		}
 	})
+	// duplex use: one goroutine writes a stream, another reads the echo, on the same library connection
+	for k := 0; k < r.Pick(30, 300) && r.ViolationCount() <= 12; k++ {
+		S := genStream(rng, 2000+rng.Intn(60000))
+		r.Journal(0, map[string]interface{}{"what": "duplex echo", "k": k, "len": len(S)})
+		if p := catch(func() { c18Duplex(r, []string{"unix", "tcp", "pipe"}[k%3], S, k) }); p != "" {
+			r.Violation("C18 panic", p, map[string]interface{}{"what": "duplex echo", "k": k})
+		}
+		r.Done(0)
+	}
 	// (b) end to end
 	d := &upgradeDisp{got: map[string][]byte{}, done: map[string]chan struct{}{}}
 	for _, tr := range []string{"unix", "tcp"} {
